@@ -1,6 +1,7 @@
 package worlds
 
 import (
+	"crypto/rand"
 	"bytes"
 	"crypto/sha256"
 	"encoding/hex"
@@ -15,6 +16,7 @@ import (
 	anypb "google.golang.org/protobuf/types/known/anypb"
 
 	"github.com/shutter-network/rolling-shutter/rolling-shutter/medley/identitypreimage"
+	"github.com/shutter-network/rolling-shutter/rolling-shutter/medley/testkeygen"
 	"github.com/shutter-network/rolling-shutter/rolling-shutter/p2pmsg"
 	"github.com/shutter-network/rolling-shutter/rolling-shutter/trace"
 
@@ -25,7 +27,7 @@ import (
 
 func init() {
 	simkit.Register(&simkit.Property{
-		ID: "C05", Level: "exploration", Bubble: true, Run: runC05,
+		ID: "C05", Level: "exploration", Bubble: true, Run: runC05, RunWallLimit: 90 * time.Second,
 		Rule: "World C, one flavour per run out of {core, Gnosis (+ access node), Shutter service, core+Primev handler, core+snapshot handler}, 2-3 honest nodes on pgsim with a consumer on every trigger channel. A Byzantine peer publishes 8-30 messages on every subscribed topic: raw byte strings, truncated / bit-flipped / extended encodings of valid envelopes, every message type (key shares, keys, eon public key, decryption trigger, Primev commitment) on every topic, structure-aware field mutations (indices out of range and 2^64-1, list length mismatches between signers and signatures / identities and tx hashes, empty and oversized lists, short and over-long signatures and digests, wrong flavour extras, nil extras, non-hex strings), interleaved with honest traffic. Oracles: no validator and no handler panics (the real loop has no recover); every delivery finishes (quiescence within the step budget); heap allocated per injected message stays below 256 MiB + 1 KiB per message byte; after the attack an honest trigger round still converges to the reference keys. NOTE: the byte-string dimension is seeded, structure-aware sampling by a simulated faulty party. Non-trivial = a run in which a hostile message got past envelope decoding (reached a handler-level validator); distinct = distinct trace hashes among those.",
 		Assumptions: []string{"allocation is metered process-wide between injection and quiescence (includes harness and pgsim overhead, hence the generous constant)"},
 		Real:        []string{"p2p validators/handlers/runHandleMessages", "p2pmsg.Unmarshal/Validate", "epochkghandler handlers", "gnosis / shutterservice handlers + middleware", "primev.PrimevCommitmentHandler", "snapshot.DecryptionTriggerHandler", "gnosisaccessnode.DecryptionKeysHandler", "KeyShareHandler"},
@@ -44,7 +46,17 @@ func runC05(r *simkit.Run) {
 	for i := 0; i < n; i++ {
 		w.addNode(fmt.Sprintf("k%d", i), i, dkgSuccess, nil)
 	}
+	var orphan *testkeygen.EonKeys
 	if w.fl == flGnosis {
+		if c.Chance(400, "access-orphan-eon-key") {
+			var err error
+			orphan, err = testkeygen.NewEonKeys(rand.Reader, uint64(n), uint64(t))
+			if err != nil {
+				r.InfraFail("keys: %v", err)
+			}
+			w.accessOrphanEonKey = orphan.EonPublicKey()
+			r.Probe("access-node-with-orphan-eon-key")
+		}
 		w.addAccessNode("access")
 	}
 	r.Eventf("flavour=%s n=%d t=%d", w.fl, n, t)
@@ -80,6 +92,18 @@ func runC05(r *simkit.Run) {
 	base := func() (p2pmsg.Message, string) {
 		id := mkID(fmt.Sprintf("id-%d", c.Intn(3, "id")))
 		sender := c.Intn(n, "sender")
+		if orphan != nil && c.Chance(150, "keys-for-orphan-eon") {
+			// genuine keys of the eon whose keyper set the access node never received
+			k, _ := orphan.EpochSecretKey(identitypreimage.IdentityPreimage(id))
+			var signers []uint64
+			var sigs [][]byte
+			for i := 0; i < t; i++ {
+				signers = append(signers, uint64(i))
+				sigs = append(sigs, c.Bytes(65, "orphan-sig"))
+			}
+			return &p2pmsg.DecryptionKeys{InstanceId: cInstanceID, Eon: cOrphanEon, Keys: []*p2pmsg.Key{{IdentityPreimage: id, Key: k.Marshal()}},
+				Extra: &p2pmsg.DecryptionKeys_Gnosis{Gnosis: &p2pmsg.GnosisDecryptionKeysExtra{Slot: 3, TxPointer: 0, SignerIndices: signers, Signatures: sigs}}}, "keys-of-orphan-eon"
+		}
 		switch c.Intn(5, "base-type") {
 		case 0:
 			sh := &p2pmsg.DecryptionKeyShares{InstanceId: cInstanceID, Eon: uint64(w.kci), KeyperIndex: uint64(sender),
